@@ -157,6 +157,21 @@ class DocGen:
         if not isinstance(root, dict) or "$ref" in root:
             root = {"allOf": [root]}
         root = dict(root)
+        if isinstance(root.get("properties"), dict) and rng.random() < 0.3:
+            # look-alike siblings: equal containers holding object schemas of the same shape under different
+            # names (a walk that remembers what it has seen by equality instead of identity skips the second)
+            body = {"type": "object", "properties": {"street": {"type": "string"}, "no": {"type": "integer"}},
+                    "required": ["street"]}
+            titled = rng.random() < 0.5
+            for name in ("shipping_addresses", "billing_addresses"):
+                inner = copy.deepcopy(body)
+                if titled:
+                    inner["title"] = name.split("_")[0] + " address " + str(self.serial)
+                else:
+                    self.all_titled = False
+                wrapper = rng.choice(["array", "array", "anyOf"])
+                root["properties"][name] = ({"type": "array", "items": inner} if wrapper == "array"
+                                            else {"anyOf": [inner, {"type": "null"}]})
         if defs:
             root["definitions"] = defs
         files[main] = root
